@@ -8,7 +8,7 @@
 
 using namespace vh;
 
-static long wick_ncases(const std::string& tier) { return tier == "thorough" ? 600 : 48; }
+static long wick_ncases(const std::string& tier) { return tier == "thorough" ? 3000 : 48; }
 
 static void wick_run(Ctx& c) {
     Rng& r = c.rng;
